@@ -25,9 +25,11 @@ open Generated.Gate
 def IsAccept (e : State × Req × Outcome) : Prop :=
   e.2.1.method = some .initialize ∧ e.2.2 = .invoked .initialize .ok
 
-/-- the request carries complete per-request metadata naming a supported 2026-07-28+ version -/
-def CarriesValidMeta (r : Req) : Prop :=
-  usesNew r = true ∧ metaComplete r = true ∧ supportedProtocolVersions.contains (metaVersion r) = true
+/-- the request carries complete per-request metadata naming a 2026-07-28+ version that the session's
+transport serves (`tv` = `ServerSession.supportedVersions`); for the `server/discover` probe: one that
+the SDK knows (`acceptedVersions`) -/
+def CarriesValidMeta (tv : List String) (r : Req) : Prop :=
+  usesNew r = true ∧ metaComplete r = true ∧ (acceptedVersions tv r).contains (metaVersion r) = true
 
 theorem trace_length (s : State) (rs : List Req) : (trace s rs).length = rs.length := by
   induction rs generalizing s with
@@ -39,8 +41,8 @@ session, or the request carried complete supported metadata. -/
 theorem init_step (s : State) (r : Req) :
     (admitReq s r).1.init = s.init ∨
     (s.init = none ∧ r.method = some .initialize ∧ (admitReq s r).2 = .invoked .initialize .ok) ∨
-    CarriesValidMeta r := by
-  have hvalid : metaError r = none → unsupportedVersion r = false → usesNew r = true → CarriesValidMeta r := by
+    CarriesValidMeta s.tv r := by
+  have hvalid : metaError r = none → unsupportedVersion s.tv r = false → usesNew r = true → CarriesValidMeta s.tv r := by
     intro he hu hn
     refine ⟨hn, metaComplete_of_noError hn he, ?_⟩
     simpa [unsupportedVersion, hn] using hu
@@ -72,7 +74,7 @@ theorem init_step (s : State) (r : Req) :
 /-- general form of the gate: whatever reaches a method handler either is a lifecycle method, or
 finds `InitializeParams` set, or carries complete supported per-request metadata itself. -/
 theorem invoked_step {s : State} {r : Req} {m : Method} {res : HRes} (h : (admitReq s r).2 = .invoked m res) :
-    lifecycle.contains m = true ∨ s.init.isSome = true ∨ CarriesValidMeta r := by
+    lifecycle.contains m = true ∨ s.init.isSome = true ∨ CarriesValidMeta s.tv r := by
   cases hn : usesNew r with
   | false =>
     cases hs : s.init with
@@ -95,7 +97,7 @@ theorem gate_invariant_from (s : State) (rs : List Req) (i : Nat) (hi : i < (tra
     (m : Method) (res : HRes) (h : ((trace s rs)[i]).2.2 = .invoked m res) :
     lifecycle.contains m = true ∨ s.init.isSome = true ∨
     (∃ j, ∃ hj : j < (trace s rs).length, j < i ∧ IsAccept ((trace s rs)[j])) ∨
-    (∃ j, ∃ hj : j < (trace s rs).length, j ≤ i ∧ CarriesValidMeta ((trace s rs)[j]).2.1) := by
+    (∃ j, ∃ hj : j < (trace s rs).length, j ≤ i ∧ CarriesValidMeta s.tv ((trace s rs)[j]).2.1) := by
   induction rs generalizing s i with
   | nil => simp [trace] at hi
   | cons r rs ih =>
@@ -122,6 +124,7 @@ theorem gate_invariant_from (s : State) (rs : List Req) (i : Nat) (hi : i < (tra
       · right; right; left
         exact ⟨j + 1, by simpa [trace] using hj, Nat.succ_lt_succ hji, by simpa [trace] using hacc⟩
       · right; right; right
+        rw [admit_tv] at hmeta
         exact ⟨j + 1, by simpa [trace] using hj, Nat.succ_le_succ hji, by simpa [trace] using hmeta⟩
 
 /-! ## C06 -/
@@ -166,7 +169,7 @@ theorem gate_invariant_general (tv : List String) (rs : List Req) (i : Nat)
     (h : ((trace (fresh tv) rs)[i]).2.2 = .invoked m res) :
     m ∈ allowedBeforeInit ∨
     (∃ j, ∃ hj : j < (trace (fresh tv) rs).length, j < i ∧ IsAccept ((trace (fresh tv) rs)[j])) ∨
-    (∃ j, ∃ hj : j < (trace (fresh tv) rs).length, j ≤ i ∧ CarriesValidMeta ((trace (fresh tv) rs)[j]).2.1) := by
+    (∃ j, ∃ hj : j < (trace (fresh tv) rs).length, j ≤ i ∧ CarriesValidMeta tv ((trace (fresh tv) rs)[j]).2.1) := by
   rcases gate_invariant_from (fresh tv) rs i hi m res h with h1 | h1 | h1 | h1
   · left
     have : m ∈ lifecycle := by simpa using h1
@@ -358,7 +361,7 @@ theorem initialize_outcome (s : State) (r : Req) (hm : r.method = some .initiali
     rcases admit_cases s r with ⟨h, _⟩ | ⟨_, c, h, _⟩ | ⟨_, _, h, _⟩ | ⟨_, _, _, c, hg, _⟩ | ⟨_, _, _, _, e⟩ | ⟨_, _, _, hg, _⟩
     · rw [hpre] at h; cases h
     · rw [metaError_legacy hleg] at h; cases h
-    · rw [unsupported_legacy hleg] at h; cases h
+    · rw [unsupported_legacy _ hleg] at h; cases h
     · rw [hleg, hm, tbl_gate_initialize_legacy] at hg; cases hg
     · rw [e]; unfold dispatch; rw [hcd]
     · rw [hleg] at hg; exact absurd hg (gate_legacy_never_adopts _ _)
@@ -519,7 +522,7 @@ theorem ping_always_served (s : State) (r : Req) (hm : r.method = some .ping) (h
     rcases admit_cases s r with ⟨h, _⟩ | ⟨_, c, h, _⟩ | ⟨_, _, h, _⟩ | ⟨_, _, _, c, hg, _⟩ | ⟨_, _, _, _, e⟩ | ⟨_, _, _, hg, _⟩
     · rw [hpre] at h; cases h
     · rw [metaError_legacy hleg] at h; cases h
-    · rw [unsupported_legacy hleg] at h; cases h
+    · rw [unsupported_legacy _ hleg] at h; cases h
     · rw [hleg, hm, tbl_gate_ping] at hg; cases hg
     · rw [e, hd]
     · rw [hleg] at hg; exact absurd hg (gate_legacy_never_adopts _ _)
@@ -539,7 +542,7 @@ theorem new_protocol_requires_complete_meta (s : State) (r : Req)
 
 /-- ... and conversely: what is served under the new protocol carried complete, supported metadata. -/
 theorem served_new_protocol_has_valid_meta (s : State) (r : Req) (m : Method) (res : HRes)
-    (hn : usesNew r = true) (h : (admitReq s r).2 = .invoked m res) : CarriesValidMeta r := by
+    (hn : usesNew r = true) (h : (admitReq s r).2 = .invoked m res) : CarriesValidMeta s.tv r := by
   rcases admit_cases s r with ⟨_, e⟩ | ⟨_, c, _, e⟩ | ⟨_, _, _, e⟩ | ⟨_, _, _, c, _, e⟩ | ⟨_, he, hu, _, _⟩ | ⟨_, he, hu, _, _⟩
   · rw [e] at h; simp at h
   · rw [e] at h; simp [reject_not_invoked] at h
@@ -551,15 +554,18 @@ theorem served_new_protocol_has_valid_meta (s : State) (r : Req) (m : Method) (r
 example : admitReq {} { method := some .tools_list, hasId := true, params := .objOk, «meta» := .ver "2026-07-28" .missing .ok }
     = ({}, .rejected (-32602) []) := by decide
 
-/-- **C06.** Complete metadata naming a version that is not supported: unsupported-version (-32022)
-with the list of supported versions; nothing runs, the state is unchanged. -/
+/-- **C06.** Complete metadata naming a version that is not supported — for every method but the
+`server/discover` probe: not served by the session's transport; for the probe: not known to the SDK
+(`acceptedVersions`) —: unsupported-version (-32022) with the list of the versions the session's
+transport serves; nothing runs, the state is unchanged. -/
 theorem unsupported_version (s : State) (r : Req)
     (hn : usesNew r = true) (hc : metaComplete r = true)
-    (hv : supportedProtocolVersions.contains (metaVersion r) = false) :
-    admitReq s r = (s, reject r (-32022) supportedProtocolVersions) := by
+    (hv : (acceptedVersions s.tv r).contains (metaVersion r) = false) :
+    admitReq s r = (s, reject r (-32022) s.tv) := by
   have hcode : codeUnsupportedProtocolVersion = -32022 := tbl_codes.2.2.2.1
-  have hv' : metaVersion r ∉ supportedProtocolVersions := by simpa using hv
-  have hu : unsupportedVersion r = true := by simp [unsupportedVersion, hn, hv']
+  have hu : unsupportedVersion s.tv r = true := by
+    have hv' : metaVersion r ∉ acceptedVersions s.tv r := by simpa using hv
+    simp [unsupportedVersion, hn, hv']
   rcases admit_cases s r with ⟨h, e⟩ | ⟨_, c, h, e⟩ | ⟨_, _, _, e⟩ | ⟨_, _, h, _⟩ | ⟨_, _, h, _⟩ | ⟨_, _, h, _⟩
   · rw [e, reject_noId (preemptDrops_noId h)]
   · exfalso
@@ -576,15 +582,133 @@ theorem unsupported_version (s : State) (r : Req)
 example : admitReq {} { method := some .tools_list, hasId := true, params := .objOk, «meta» := .ver "2027-01-01" .ok .absent }
     = ({}, .rejected (-32022) ["2026-07-28", "2025-11-25", "2025-06-18", "2025-03-26", "2024-11-05"]) := by decide
 
+/-! ### F34: the per-request version is the TRANSPORT's to accept -/
+
+/-- **C06 / F34, one step.** In any state, a request of any method other than the `server/discover`
+probe whose complete `_meta` names a version that the session's transport does not serve — whether or
+not the SDK knows that version — is answered -32022 carrying exactly the transport's versions; it
+reaches neither middleware nor handler and the session state is unchanged (in particular its identity
+is not adopted). -/
+theorem per_request_version_refused_unless_transport_serves_it (s : State) (r : Req)
+    (hnd : r.method ≠ some .server_discover) (hn : usesNew r = true) (hc : metaComplete r = true)
+    (hv : s.tv.contains (metaVersion r) = false) :
+    admitReq s r = (s, reject r (-32022) s.tv) := by
+  apply unsupported_version s r hn hc
+  simpa [acceptedVersions, hnd] using hv
+
+/-- **C06 / F34, all transports, all histories.** Whatever the transport's `SupportsProtocolVersion`
+predicate and whatever was sent before on the session: a new-protocol request of any method other than
+`server/discover` that reaches a method handler carries complete metadata naming a version that the SDK
+supports AND the transport serves. -/
+theorem per_request_version_served_only_if_transport_serves_it (supports : String → Bool) (rs : List Req)
+    (i : Nat) (hi : i < (trace (fresh (transportVersions supports)) rs).length) (m : Method) (res : HRes)
+    (h : ((trace (fresh (transportVersions supports)) rs)[i]).2.2 = .invoked m res)
+    (hn : usesNew ((trace (fresh (transportVersions supports)) rs)[i]).2.1 = true)
+    (hnd : ((trace (fresh (transportVersions supports)) rs)[i]).2.1.method ≠ some .server_discover) :
+    metaComplete ((trace (fresh (transportVersions supports)) rs)[i]).2.1 = true ∧
+    metaVersion ((trace (fresh (transportVersions supports)) rs)[i]).2.1 ∈ supportedProtocolVersions ∧
+    supports (metaVersion ((trace (fresh (transportVersions supports)) rs)[i]).2.1) = true := by
+  obtain ⟨hstep, htv⟩ := trace_entry (fresh (transportVersions supports)) rs i hi
+  generalize (trace (fresh (transportVersions supports)) rs)[i] = e at h hn hnd hstep htv
+  rw [hstep] at h
+  obtain ⟨_, hc, hv⟩ := served_new_protocol_has_valid_meta e.1 e.2.1 m res hn h
+  rw [htv] at hv
+  have hv' : metaVersion e.2.1 ∈ transportVersions supports := by
+    simpa [acceptedVersions, hnd, fresh] using hv
+  have := List.mem_filter.1 hv'
+  exact ⟨hc, this.1, this.2⟩
+
+/-- ... and for every version list `tv` (not only the images of `filterSupportedVersions`), with the
+converse: along any history, such a request whose version is not in `tv` is answered -32022 carrying `tv`
+and leaves the state it met unchanged. -/
+theorem per_request_version_gate_all_histories (tv : List String) (rs : List Req)
+    (i : Nat) (hi : i < (trace (fresh tv) rs).length)
+    (hn : usesNew ((trace (fresh tv) rs)[i]).2.1 = true)
+    (hnd : ((trace (fresh tv) rs)[i]).2.1.method ≠ some .server_discover) :
+    (∀ m res, ((trace (fresh tv) rs)[i]).2.2 = .invoked m res →
+      tv.contains (metaVersion ((trace (fresh tv) rs)[i]).2.1) = true) ∧
+    (metaComplete ((trace (fresh tv) rs)[i]).2.1 = true →
+      tv.contains (metaVersion ((trace (fresh tv) rs)[i]).2.1) = false →
+      admitReq ((trace (fresh tv) rs)[i]).1 ((trace (fresh tv) rs)[i]).2.1 =
+        (((trace (fresh tv) rs)[i]).1, reject ((trace (fresh tv) rs)[i]).2.1 (-32022) tv) ∧
+      ((trace (fresh tv) rs)[i]).2.2 = reject ((trace (fresh tv) rs)[i]).2.1 (-32022) tv) := by
+  obtain ⟨hstep, htv⟩ := trace_entry (fresh tv) rs i hi
+  generalize (trace (fresh tv) rs)[i] = e at hn hnd hstep htv
+  have htv' : e.1.tv = tv := htv
+  constructor
+  · intro m res h
+    rw [hstep] at h
+    obtain ⟨_, _, hv⟩ := served_new_protocol_has_valid_meta e.1 e.2.1 m res hn h
+    rw [htv'] at hv
+    simpa [acceptedVersions, hnd] using hv
+  · intro hc hv
+    have := per_request_version_refused_unless_transport_serves_it e.1 e.2.1 hnd hn hc (by rw [htv']; exact hv)
+    rw [htv'] at this
+    exact ⟨this, by rw [hstep, this]⟩
+
+/-- The `server/discover` probe is the exception, and only as a probe: naming any version the SDK knows
+it is answered — with the TRANSPORT's versions — on every transport, and (see
+`discover_persists_only_on_new_protocol_transport`) it stores nothing unless the transport serves the
+new protocol. -/
+theorem discover_probe_answered_with_transport_versions (s : State) (r : Req)
+    (hm : r.method = some .server_discover) (hid : r.hasId = true) (hn : usesNew r = true)
+    (hc : metaComplete r = true) (hv : supportedProtocolVersions.contains (metaVersion r) = true)
+    (hp : r.params ≠ .objUndecodable) :
+    (admitReq s r).2 = .invoked .server_discover .ok ∧
+    resultInfo s r (admitReq s r).2 = some (",".intercalate s.tv) := by
+  have hpre : preemptDrops r = false := by simp [preemptDrops, hm]
+  have hobj : r.params.isObject = true := by
+    cases ho : r.params.isObject with
+    | true => rfl
+    | false => simp [usesNew, effMeta, ho] at hn
+  have hcd : checkAndDecode serverMethodInfos r = .ok .server_discover := by
+    unfold checkAndDecode
+    simp only [hm, tbl_flags_discover, hid]
+    cases hps : r.params <;> simp_all [PShape.isObject]
+  have hu : unsupportedVersion s.tv r = false := by
+    have : metaVersion r ∈ supportedProtocolVersions := by simpa using hv
+    simp [unsupportedVersion, acceptedVersions, hm, this]
+  have key : (admitReq s r).2 = .invoked .server_discover .ok := by
+    rcases admit_cases s r with ⟨h, _⟩ | ⟨_, c, h, _⟩ | ⟨_, _, h, _⟩ | ⟨_, _, _, c, hg, _⟩ | ⟨_, _, _, _, e⟩ | ⟨_, _, _, hg, _⟩
+    · rw [hpre] at h; cases h
+    · exfalso
+      unfold metaError at h; unfold metaComplete at hc
+      cases hmm : effMeta r with
+      | none => rw [hmm] at hc; simp at hc
+      | ver v caps ci =>
+        rw [hmm] at h hc
+        simp only [hn, Bool.not_true, Bool.false_eq_true, if_false] at h
+        cases caps <;> cases ci <;> simp_all
+    · rw [hu] at h; cases h
+    · rw [hn, hm, tbl_gate_discover_new] at hg; cases hg
+    · rw [e]; unfold dispatch; rw [hcd]
+      simp only [serverHandler]
+      split <;> rfl
+    · rw [hn, hm, tbl_gate_discover_new] at hg; cases hg
+  exact ⟨key, by rw [key]; rfl⟩
+
+/-- non-vacuity of F34: on a transport serving only legacy versions (the SSE transport's predicate), and
+on a stateful-streamable-like one, `tools/list` carrying complete 2026-07-28 metadata is refused with the
+transport's list and adopts nothing; the discover probe is answered and stores nothing; on a transport
+that serves 2026-07-28 both are served. -/
+example :
+    let legacy := transportVersions (fun v => decide (v < "2026-07-28"))
+    let list : Req := { method := some .tools_list, hasId := true, params := .objOk, «meta» := .ver "2026-07-28" .ok .ok, tag := "c" }
+    let disc : Req := { method := some .server_discover, hasId := true, params := .objOk, «meta» := .ver "2026-07-28" .ok .ok, tag := "c" }
+    legacy = ["2025-11-25", "2025-06-18", "2025-03-26", "2024-11-05"] ∧
+    admitReq (fresh legacy) list = (fresh legacy, .rejected (-32022) legacy) ∧
+    admitReq (fresh legacy) disc = (fresh legacy, .invoked .server_discover .ok) ∧
+    (admitReq (fresh ["2026-07-28"]) list).2 = .invoked .tools_list .ok ∧
+    (admitReq (fresh ["2026-07-28"]) list).1.init = some ⟨"c", "2026-07-28"⟩ := by decide
+
 /-- **C06.** Under the new protocol (complete metadata, supported version) a method removed from that
 protocol is answered method-not-found (-32601); nothing runs, the state is unchanged. -/
 theorem removed_methods_not_found (s : State) (r : Req) (m : Method)
-    (hv : CarriesValidMeta r) (hm : r.method = some m) (hrem : removedInNewProtocol.contains m = true) :
+    (hv : CarriesValidMeta s.tv r) (hm : r.method = some m) (hrem : removedInNewProtocol.contains m = true) :
     admitReq s r = (s, reject r (-32601)) := by
   obtain ⟨hn, hc, hsup⟩ := hv
   have hcode : codeMethodNotFound = -32601 := tbl_codes.1
   have hrem' : m ∈ removedInNewProtocol := by simpa using hrem
-  have hsup' : metaVersion r ∈ supportedProtocolVersions := by simpa using hsup
   have hg : gate s.init.isSome true (some m) = .refuse codeMethodNotFound := by
     unfold gate; simp [hrem']
   rcases admit_cases s r with ⟨h, e⟩ | ⟨_, c, h, e⟩ | ⟨_, _, h, _⟩ | ⟨_, _, _, c, h, e⟩ | ⟨_, _, _, h, _⟩ | ⟨_, _, _, h, _⟩
@@ -601,7 +725,8 @@ theorem removed_methods_not_found (s : State) (r : Req) (m : Method)
         simp only [hn, Bool.not_true, Bool.false_eq_true, if_false] at h
         cases caps <;> cases ci <;> simp_all
     | false => rw [hmc] at hc; cases hc
-  · simp [unsupportedVersion, hn, hsup'] at h
+  · have hsup' : metaVersion r ∈ acceptedVersions s.tv r := by simpa using hsup
+    simp [unsupportedVersion, hn, hsup'] at h
   · rw [hn, hm, hg] at h; cases h; rw [e, hcode]
   · rw [hn, hm, hg] at h; cases h
   · rw [hn, hm, hg] at h; cases h
@@ -621,7 +746,7 @@ example : admitReq { init := some ⟨"a", "v"⟩ }
 answered method-not-found and changes nothing; one that is served used the new protocol. -/
 theorem discover_only_new_protocol (s : State) (r : Req) (hm : r.method = some .server_discover) :
     (usesNew r = false → admitReq s r = (s, reject r (-32601))) ∧
-    (∀ res, (admitReq s r).2 = .invoked .server_discover res → CarriesValidMeta r) := by
+    (∀ res, (admitReq s r).2 = .invoked .server_discover res → CarriesValidMeta s.tv r) := by
   have hcode : codeMethodNotFound = -32601 := tbl_codes.1
   have hpre : preemptDrops r = false := by simp [preemptDrops, hm]
   have h1 : usesNew r = false → admitReq s r = (s, reject r (-32601)) := by
@@ -629,7 +754,7 @@ theorem discover_only_new_protocol (s : State) (r : Req) (hm : r.method = some .
     rcases admit_cases s r with ⟨h, _⟩ | ⟨_, c, h, _⟩ | ⟨_, _, h, _⟩ | ⟨_, _, _, c, hg, e⟩ | ⟨_, _, _, hg, _⟩ | ⟨_, _, _, hg, _⟩
     · rw [hpre] at h; cases h
     · rw [metaError_legacy hleg] at h; cases h
-    · rw [unsupported_legacy hleg] at h; cases h
+    · rw [unsupported_legacy _ hleg] at h; cases h
     · rw [hleg, hm, tbl_gate_discover_legacy] at hg; cases hg; rw [e, hcode]
     · rw [hleg, hm, tbl_gate_discover_legacy] at hg; cases hg
     · rw [hleg, hm, tbl_gate_discover_legacy] at hg; cases hg
@@ -648,7 +773,7 @@ example : admitReq {} { method := some .server_discover, hasId := true, params :
 
 /-- Nothing of higher precedence refuses `r` in state `s` (preempter, metadata, version, lifecycle gate). -/
 def PastGate (s : State) (r : Req) : Prop :=
-  preemptDrops r = false ∧ metaError r = none ∧ unsupportedVersion r = false ∧
+  preemptDrops r = false ∧ metaError r = none ∧ unsupportedVersion s.tv r = false ∧
   ∀ c, gate s.init.isSome (usesNew r) r.method ≠ .refuse c
 
 /-- The property's code mapping for one request against a method table `t`, as a specification of the
@@ -787,7 +912,7 @@ theorem uninitialized_refusal_uncoded (r : Req) (hleg : usesNew r = false) (hp :
   rcases admit_cases {} r with ⟨h, _⟩ | ⟨_, c, h, _⟩ | ⟨_, _, h, _⟩ | ⟨_, _, _, c, h, e⟩ | ⟨_, _, _, h, _⟩ | ⟨_, _, _, h, _⟩
   · rw [hp] at h; cases h
   · rw [metaError_legacy hleg] at h; cases h
-  · rw [unsupported_legacy hleg] at h; cases h
+  · rw [unsupported_legacy _ hleg] at h; cases h
   · rw [hleg] at h; simp only [Option.isSome_none] at h; rw [hg] at h; cases h; rw [e]; rfl
   · rw [hleg] at h; simp only [Option.isSome_none] at h; rw [hg] at h; cases h
   · rw [hleg] at h; simp only [Option.isSome_none] at h; rw [hg] at h; cases h
